@@ -231,13 +231,15 @@ def syncml_doc(dump, rng, inner_docs):
         payload = b''.join(s(c) if rng.random() < 0.7 else (b'\xC3' + mb(len(c)) + c) for c in chunks)
     cmd = rng.choice([b'Add', b'Replace', b'Results', b'Put'])
     meta_where = rng.choice(['item', 'cmd', 'none'])
-    meta = t(b'Meta') + t(b'Type') + s(mime) + b'\x01' + b'\x01'
+    # (tokens are produced in document order: `t` tracks the current code page)
+    def meta():
+        return t(b'Meta') + t(b'Type') + s(mime) + b'\x01' + b'\x01'
     body = t(b'SyncML') + t(b'SyncBody') + t(cmd) + t(b'CmdID') + s(b'1') + b'\x01'
     if meta_where == 'cmd':
-        body += meta
+        body += meta()
     body += t(b'Item')
     if meta_where == 'item':
-        body += meta
+        body += meta()
     body += t(b'Data') + payload + b'\x01' + b'\x01' + b'\x01' + b'\x01' + b'\x01'
     pub = lang['pub']['wbxml']
     return bytes([2]) + mb(pub) + mb(106) + mb(0) + body
